@@ -237,11 +237,8 @@ def judge(ctx, R, notes, o, ret, rerun_sorted=None):
                        f"sounds; e.g. missing {missing[:3]} extra {extra[:3]}",
                   {"missing[row,col]": [list(x) for x in missing[:8]], "extra[row,col]": [list(x) for x in extra[:8]]})
         if want_idx:
-            if o.get("onset_only"):
-                ctx.ambiguous()                                   # offset column in onset mode: left open
-                cmpcols = (0, 1, 3)
-            else:
-                cmpcols = (0, 1, 2, 3)
+            # (in onset mode a note's cells are its onset frame: the index row ends one frame after it begins)
+            cmpcols = (0, 1, 2, 3)
             vis = [i for i, r in enumerate(R.idx) if 0 <= r[0] < R.rows]       # rows of notes outside the roll: open
             if len(vis) < len(R.idx):
                 ctx.ambiguous()
